@@ -58,6 +58,8 @@ def run(ck):
     ck.sample({'case': lines[0][:300], 'implementation': impl[0][:200], 'model': mod[0][:200]})
     # ---- witness search: permutations through the file API ----------------------------------------
     fr = FileRunner(ck)
+    fr_late = FileRunner(ck)
+    fr_late2 = FileRunner(ck)
     wit = []
     try:
         groups = []
@@ -65,7 +67,7 @@ def run(ck):
         for k in range(ncases):
             kind = 'dna' if rng.chance(1, 2) else 'protein'
             big = (k % 15 == 14)
-            diffuse = (k % 30 == 9)
+            diffuse = (k % 30 in (9, 17, 24))
             if diffuse:
                 # >= 100 records from several unrelated clusters of different lengths: the bisecting k-means has many local optima,
                 # so whatever picks its seeds must depend on the canonical order only (and on nothing like time or addresses)
@@ -144,14 +146,23 @@ def run(ck):
                     order = list(range(len(recs)))[::-1]       # the ambiguity-rich records first in one order, last in the other
                 orders.append(order)
                 txt = gen.fasta([recs[i][0] for i in order], [recs[i][1] for i in order])
-                ids.append(fr.add([txt], 'fasta', thr, ty, tag=k))
+                if fam == 'diffuse>=100' and p in (2, 4):
+                    # the repetition of an order runs in ANOTHER process, later: anything seeded from the clock or the process id shows
+                    ids.append(('late' if p == 2 else 'late2', (fr_late if p == 2 else fr_late2).add([txt], 'fasta', thr, ty, tag=k)))
+                else:
+                    ids.append(('main', fr.add([txt], 'fasta', thr, ty, tag=k)))
             groups.append((recs, ids, orders, ty, thr, fam))
             ck.count('family:' + fam); ck.count('threads:%d' % thr)
-        res = fr.run()
+        res_main = fr.run()
+        import time as _t
+        _t.sleep(1.1)
+        res_late = fr_late.run() if fr_late.jobs else []
+        _t.sleep(1.1)
+        res_late2 = fr_late2.run() if fr_late2.jobs else []
         for recs, ids, orders, ty, thr, fam in groups:
             outs = []
-            for i in ids:
-                r = res[i]
+            for (which, i) in ids:
+                r = {'main': res_main, 'late': res_late, 'late2': res_late2}[which][i]
                 if r['text'] is None:
                     outs.append(None)
                 else:
@@ -166,7 +177,7 @@ def run(ck):
                 if orders[j] != orders[0] and outs[0] and any('-' in r for r in outs[0].values()):
                     ck.nontriv({'r': recs[:6], 'o': orders[j][:12], 't': ty})
     finally:
-        fr.close()
+        fr.close(); fr_late.close(); fr_late2.close()
     for w in wit[:3]:
         ck.violation('witness', w)
     if not wit:
